@@ -1519,22 +1519,23 @@ method or constructor of some type."""
                 return False
 
         if isinstance(target, ast.Class):
+            # Walk up from the constructed type: the return type has to be
+            # that type or one of its ancestors (GObject.Object ends the chain)
             parent = origin_node
-            while parent and (not parent.gi_name == 'GObject.Object'):
-                if parent == target:
-                    break
-                if parent.parent_type:
-                    parent = self._transformer.lookup_typenode(parent.parent_type)
+            while parent is not None and parent != target:
+                parent_type = getattr(parent, 'parent_type', None)
+                if parent.gi_name != 'GObject.Object' and parent_type:
+                    parent = self._transformer.lookup_typenode(parent_type)
                 else:
                     parent = None
-                if parent is None:
-                    message.warn_node(func,
-                                      "Return value is not superclass for constructor; "
-                                      "symbol='%s' constructed='%s' return='%s'" %
-                                      (func.symbol,
-                                       str(origin_node.create_type()),
-                                       str(func.retval.type)))
-                    return False
+            if parent is None:
+                message.warn_node(func,
+                                  "Return value is not superclass for constructor; "
+                                  "symbol='%s' constructed='%s' return='%s'" %
+                                  (func.symbol,
+                                   str(origin_node.create_type()),
+                                   str(func.retval.type)))
+                return False
         else:
             if origin_node != target:
                 message.warn_node(func,
